@@ -44,6 +44,7 @@ type VolCase struct {
 	Tail       string `json:"tail"`                        // pending | overtake | reuse | cleanup
 	Seed       uint64 `json:"seed"`
 	Debug      bool   `json:"debug_logging,omitempty"`
+	IdentPool  int    `json:"ident_pool,omitempty"` // as History.IdentPool
 }
 
 func (v VolCase) String() string {
@@ -102,6 +103,7 @@ func genVolCase(r *hutil.Rand, i int, big bool) VolCase {
 			}
 		}
 	}
+	v.IdentPool = hutil.Pick(r, []int{0, 0, 1, 2, 3})
 	set(i % 5)
 	if i >= 5 && r.Chance(1, 3) {
 		set(r.Intn(5))
@@ -113,7 +115,7 @@ func genVolCase(r *hutil.Rand, i int, big bool) VolCase {
 func volHistory(v VolCase) History {
 	r := hutil.NewRand(v.Seed)
 	g := &genState{r: r, nextSid: 100000, nextPid: 100000}
-	h := History{Budget: -1, Plans: map[string]SessPlan{}, Mode: "volume", Debug: v.Debug}
+	h := History{Budget: -1, Plans: map[string]SessPlan{}, Mode: "volume", Debug: v.Debug, IdentPool: v.IdentPool}
 	vc := v
 	h.Vol = &vc
 	var ops []HOp
